@@ -39,8 +39,8 @@ P("C01", RM + "panic/overflow/internal-error/progress monitors over hostile gene
   "Non-trivial = distinct input bytes (sweep: inputs that reach a handler).",
   ["termination is decided as bounded progress + watchdog; a watchdog suspect that does not reproduce is reported inconclusive, never as a violation",
    "absence of Miri/ASan reports covers only the executions interpreted; ASan is a red-zone tool"],
-  quick=[REL, DBG, miri(16, 1200)], thorough=[REL, DBG, miri(16, 3600, ["--tier", "thorough"], 1500), asan()],
-  floors={"quick": {"evaluations": 3_000_000, "inputs.reaching-a-handler": 100_000, "direct.tokens": 200_000},
+  quick=[REL, DBG, asan(["--stages", "boundary,run,direct"]), miri(16, 1200)], thorough=[REL, DBG, miri(16, 3600, ["--tier", "thorough"], 1500), asan()],
+  floors={"quick": {"evaluations": 3_000_000, "boundary.runs": 5_000, "inputs.reaching-a-handler": 100_000, "direct.tokens": 200_000},
           "thorough": {"evaluations": 100_000_000, "inputs.reaching-a-handler": 5_000_000}})
 
 P("C02", RM + "recorded handler invocations compared with an independent header resolver (order-preserving path embedding) over random unambiguous trees and message histories",
@@ -101,7 +101,7 @@ P("C11", RM + "capacity sweep with the genuine ArrayVec<u8,CAP> formatter for ev
   "framing messages (<=4 units) and hostile/corrupted/random inputs; every capacity 0..len+2 (168 instantiations up to 4096). Oracle: CAP>=len => Ok and identical bytes; else exactly -225, hook once, buffer <= CAP and a prefix of the response, no extra handler; "
   "failing messages fail at every capacity; allocation count across Node::run (ArrayVec formatter, non-allocating handlers) must be 0. Non-trivial = distinct (response, capacity) with exhaustion.",
   ["capacities are compile-time; 168 instantiations are explored", "allocations are counted per thread by a wrapper around the system allocator"],
-  quick=[REL, DBG, miri(16, 900)], thorough=[REL, DBG, miri(16, 3600, ["--tier", "thorough"], 1500), asan()],
+  quick=[REL, DBG, asan(), miri(16, 900)], thorough=[REL, DBG, miri(16, 3600, ["--tier", "thorough"], 1500), asan()],
   floors={"quick": {"evaluations": 500_000, "does-not-fit": 300_000, "fits": 50_000, "runs.allocation-counted": 500_000}, "thorough": {"evaluations": 20_000_000}})
 
 P("C12", RM + "lock-step comparison of every queue operation with a reference FIFO (unique ids per pushed error) for both provided implementations and capacities 1..8,16,64; Miri",
